@@ -1,5 +1,12 @@
 mod c01;
 mod c02;
+mod c03;
+mod c11;
+mod c12;
+mod c16;
+mod c17;
+mod inbound;
+mod inbound_oracles;
 mod c05;
 mod c09;
 mod c10;
@@ -37,9 +44,13 @@ fn main() {
             let prop = args.get(2).cloned().unwrap_or_default();
             let t = tier(args.get(3));
             let idx: usize = args.get(4).and_then(|s| s.parse().ok()).unwrap_or(0);
-            let choices: Vec<u16> = args.get(5).map(|s| s.split(',').filter_map(|x| x.parse().ok()).collect()).unwrap_or_default();
+            let raw = args.get(5).cloned().unwrap_or_default();
+            let is_script = raw.chars().any(|c| c.is_alphabetic());
+            let choices: Vec<u16> = if is_script { vec![] } else { raw.split(',').filter_map(|x| x.parse().ok()).collect() };
+            let script: Option<Vec<String>> = if is_script { Some(raw.split(';').map(|x| x.trim().to_string()).filter(|x| !x.is_empty()).collect()) } else { None };
             let rec = match prop.as_str() {
-                "C05" | "C13" => c05::trace(&prop, t, idx, &choices, 20_000),
+                "C05" | "C13" => c05::trace(&prop, t, idx, &choices, script, 20_000),
+                "C03" | "C04" | "C11" | "C12" | "C16" | "C17" => c03::trace(&prop, t, idx, &choices, script, 20_000),
                 _ => {
                     eprintln!("no trace support for {prop}");
                     std::process::exit(2);
@@ -66,7 +77,8 @@ fn main() {
                 let choices: Vec<u16> = r["choices"].as_array().map(|a| a.iter().map(|x| x.as_u64().unwrap() as u16).collect()).unwrap_or_default();
                 let max_polls = r["max_polls"].as_u64().unwrap_or(20_000);
                 let rec = match prop.as_str() {
-                    "C05" | "C13" => c05::trace(&prop, t, idx, &choices, max_polls),
+                    "C05" | "C13" => c05::trace(&prop, t, idx, &choices, None, max_polls),
+                    "C03" | "C04" | "C11" | "C12" | "C16" | "C17" => c03::trace(&prop, t, idx, &choices, None, max_polls),
                     _ => {
                         eprintln!("no simnet replay for {prop}");
                         std::process::exit(2);
@@ -109,6 +121,9 @@ fn main() {
             match args.get(2).map(|s| s.as_str()) {
                 Some("C01") => c01::run(t),
                 Some("C02") => c02::run(t),
+                Some("C03") => c03::run_c03(t),
+                Some("C04") => c03::run_c04(t),
+                Some("C11") => c11::run(t),
                 Some("C05") => c05::run(t),
                 Some("C13") => c05::run_c13(t),
                 Some("C09") => c09::run(t),
